@@ -1,14 +1,17 @@
 (* Byte strings / text as lists of character codes (Z), decimal formatting, join/split, substring search,
    Python exception classes and results.  Shared helpers of the file-format models (C20).  Definitions only;
    the lemmas are in Proofs/BytesP.v. *)
-From Coq Require Import ZArith List String Ascii Bool DecimalZ.
+From Coq Require Import ZArith List Bool DecimalZ.
+From Coq Require String Ascii.
+Export String.StringSyntax.
 Import ListNotations.
 Open Scope Z_scope.
 
 Definition str := list Z.
 
 (* Coq string literal -> list of codes *)
-Definition s2z (s : string) : str := map (fun a => Z.of_nat (nat_of_ascii a)) (list_ascii_of_string s).
+Definition s2z (s : String.string) : str := map (fun a => Z.of_nat (Ascii.nat_of_ascii a)) (String.list_ascii_of_string s).
+Arguments s2z s%string_scope.
 
 Definition byte_ok (b : Z) : Prop := 0 <= b < 256.
 Definition byte_okb (b : Z) : bool := (0 <=? b) && (b <? 256).
